@@ -30,7 +30,23 @@ impl Monitor for C08 {
     fn assumptions(&self) -> Vec<String> { vec!["reference tuple equality: NULL = NULL, numbers by value, -0.0 = 0.0; cases whose output contains NaN are skipped".into()] }
     fn sizes(&self, tier: Tier) -> Sizes { match tier { Tier::Quick => Sizes { cases: 20_000, min_nontrivial: 2_000 }, Tier::Thorough => Sizes { cases: 600_000, min_nontrivial: 60_000 } } }
 
-    fn generate(&self, rng: &mut Rng, _tier: Tier) -> J {
+    fn exhaustive_note(&self) -> Option<String> { Some("one huge-set case per size class (2^10 .. 2^17, thorough .. 2^20) in every run (kind=HugeSet)".into()) }
+
+    fn enumerate(&self, tier: Tier, emit: &mut dyn FnMut(J)) {
+        let sizes: &[usize] = if tier == Tier::Thorough { &[1 << 10, 1 << 12, 10_000, 1 << 14, 1 << 15, 1 << 16, 100_000, 1 << 17, 1 << 18, 1 << 20, 1_000_000] } else { &[1 << 10, 1 << 12, 10_000, 1 << 14, 1 << 16, 100_000, 1 << 17] };
+        for (i, base_n) in sizes.iter().enumerate() { let n = base_n + 1 + base_n / 32; emit(json!({"shape": "HugeSet", "n": n, "recur": [0, 1, 2, n / 2, n - 1, 7], "text_column": i % 2 == 0})); }
+    }
+
+    fn generate(&self, rng: &mut Rng, tier: Tier) -> J {
+        // huge set: n distinct rows (n around a power of two or ten up to 2^17, thorough up to 2^20), then rows seen long ago recur.
+        // Only the parameters are stored; the lines are materialised by the check.
+        if rng.chance(1, if tier == Tier::Thorough { 4000 } else { 1200 }) {
+            let sizes: &[usize] = if tier == Tier::Thorough { &[1 << 10, 1 << 12, 10_000, 1 << 14, 1 << 15, 1 << 16, 100_000, 1 << 17, 1 << 18, 1 << 20, 1_000_000] } else { &[1 << 10, 1 << 12, 10_000, 1 << 14, 1 << 16, 100_000, 1 << 17] };
+            let base_n = *rng.pick(sizes);
+            let n = base_n + 1 + rng.below(base_n / 16 + 2);
+            let recur: Vec<usize> = (0..6).map(|i| if i < 3 { i } else { rng.below(n) }).collect();
+            return json!({"shape": "HugeSet", "n": n, "recur": recur, "text_column": rng.chance(1, 2)});
+        }
         if rng.chance(1, 8) {
             // large set: many distinct REAL values, then -0.0 / 0.0 and repeats
             let n = 150 + rng.below(250);
@@ -62,6 +78,7 @@ impl Monitor for C08 {
     }
 
     fn check(&self, case: &J, obs: &mut Obs) -> Verdict {
+        if case["shape"] == "HugeSet" { return check_huge(case, obs); }
         let base = match Base::from_case(case) { Ok(b) => b, Err(e) => return Verdict::Inconclusive(e) };
         let shape = case["shape"].as_str().unwrap_or("?").to_owned();
         let plain_sql = base.sql.replacen("SELECT DISTINCT ", "SELECT ", 1);
@@ -101,5 +118,31 @@ impl Monitor for C08 {
             }
         }
         if vs.is_empty() { Verdict::Held } else { Verdict::Violated(vs) }
+    }
+}
+
+
+/// n distinct rows followed by rows seen long ago: DISTINCT must print exactly the n first occurrences, in order
+fn check_huge(case: &J, obs: &mut Obs) -> Verdict {
+    let n = case["n"].as_u64().unwrap_or(0) as usize;
+    let recur: Vec<usize> = case["recur"].as_array().map(|a| a.iter().filter_map(|x| x.as_u64().map(|v| v as usize)).collect()).unwrap_or_default();
+    let text = case["text_column"].as_bool().unwrap_or(false);
+    let line = |i: usize| if text { format!("{{\"i\":{},\"k\":\"v{}\"}}", i % 3, i) } else { format!("{{\"i\":{},\"k\":\"c\"}}", i) };
+    let mut lines: Vec<String> = (0..n).map(line).collect();
+    for r in &recur { lines.push(line(*r % n.max(1))); }
+    let tables = match eng::tables_from("CREATE TABLE t ( { . i } => i INT , { . k } => k TEXT ) ;") { Ok(t) => t, Err(e) => return Verdict::Inconclusive(format!("table: {}", e.show())) };
+    let stmt = match eng::parse("SELECT DISTINCT i , k FROM t") { Ok(s) => s, Err(e) => return Verdict::Inconclusive(format!("stmt: {}", e.show())) };
+    obs.hit("shape:HugeSet");
+    obs.hit(&format!("huge:2^{}", (n as f64).log2().floor() as u32));
+    obs.nontrivial();
+    match eng::exec_batch(&tables, &stmt, &lines) {
+        Err(eng::EngErr::Panic(p)) => Verdict::Violated(vec![Violation::new(format!("distinct|HugeSet|panic:{}", p.class()), p.describe())]),
+        Err(e) => Verdict::Violated(vec![Violation::new("distinct|HugeSet|error", e.show())]),
+        Ok(out) => {
+            let bad = out.rows.len() != n || out.rows.iter().enumerate().any(|(i, r)| { let want_i = if text { (i % 3) as i64 } else { i as i64 }; let want_k = if text { format!("v{}", i) } else { "c".to_owned() }; !(r.len() == 2 && matches!(&r[0], RV::Int(x) if *x == want_i) && matches!(&r[1], RV::Text(x) if *x == want_k)) });
+            if !bad { return Verdict::Held; }
+            let kind = if out.rows.len() > n { "duplicate-kept" } else if out.rows.len() < n { "distinct-row-dropped" } else { "rows-differ" };
+            Verdict::Violated(vec![Violation::new(format!("distinct|HugeSet|batch|{}", kind), format!("{} distinct rows followed by {} rows seen before: DISTINCT printed {} rows", n, recur.len(), out.rows.len()))])
+        }
     }
 }
